@@ -67,21 +67,19 @@ fn zero_sign_only(a: f32, b: f32) -> bool { a == 0.0 && b == 0.0 && a.to_bits() 
 /// Returns (first real mismatch, tainted-by-allowed-zero-sign)
 fn compare_point(dag: &Dag, vm: &[f32], jit: &[f32], arena_vals: &[f32]) -> (Option<String>, bool) {
     let idx: std::collections::HashMap<usize, usize> = dag.roots.iter().enumerate().map(|(k, n)| (n.verif_index(), k)).collect();
+    let taint = crate::refeval::zero_tie_taint(&dag.ctx, arena_vals);
+    let mut any_taint = false;
     for (k, n) in dag.roots.iter().enumerate() {
         if canon_bits(vm[k]) == canon_bits(jit[k]) { continue; }
-        // a min/max of two equal zeros may differ in the sign of zero
+        // a min/max of two equal zeros may differ in the sign of zero; whatever is computed from it inherits that
+        if taint[n.verif_index()] { any_taint = true; continue; }
         let name = op_name(dag, *n);
-        if zero_sign_only(vm[k], jit[k]) && (name == "Min" || name == "Max") {
-            let kids: Vec<Node> = dag.ctx.get_op(*n).unwrap().iter_children().collect();
-            let val = |c: &Node| match dag.ctx.get_op(*c) { Some(Op::Const(f)) => Some(f.0), _ => Some(arena_vals[c.verif_index()]) };
-            if let (Some(a), Some(b)) = (val(&kids[0]), val(&kids[1])) { if a == 0.0 && b == 0.0 { return (None, true); } }
-        }
         let kids: Vec<Node> = dag.ctx.get_op(*n).unwrap().iter_children().collect();
         let opv: Vec<String> = kids.iter().map(|c| match dag.ctx.get_op(*c) { Some(Op::Const(f)) => format!("const {:#x}", f.0.to_bits()),
             _ => match idx.get(&c.verif_index()) { Some(j) => format!("vm {:#x} jit {:#x}", canon_bits(vm[*j]), canon_bits(jit[*j])), None => "unexported".into() } }).collect();
         return (Some(format!("op={name} node={} vm={:#x} jit={:#x} operands={opv:?}", n.verif_index(), canon_bits(vm[k]), canon_bits(jit[k]))), false);
     }
-    (None, false)
+    (None, any_taint)
 }
 
 pub fn run_chunk(seed: u64, lo: usize, hi: usize) {
@@ -111,7 +109,7 @@ pub fn run_chunk(seed: u64, lo: usize, hi: usize) {
                 let (b, _) = point_eval(&jit, &dag.vs, p).unwrap();
                 if b.len() != a.len() { bad.push(format!("kind=shape jit point returned {} outputs, interpreter {}", b.len(), a.len())); continue; }
                 let (m, t) = compare_point(&dag, &a, &b, &arena_vals[pi]);
-                if t { tainted += 1; skip_pt[pi] = true; }
+                if t { tainted += 1; }
                 if let Some(m) = m { bad.push(format!("kind=point-value-differs {m} point=[{}]", fmt_bits(p))); }
             }
             // ---- float slices of every length 0..=35 (SIMD width 8), against guard pages
